@@ -19,7 +19,7 @@ CLAIMED = {
    text="All argument lists of length 1..3 (with repetitions, every order; 1..2 in the quick tier except on <=2-argument frameworks) over all frameworks with <=3 arguments and all two-component unions U(<=2)+U(<=2), through every static solver implementing the acceptance traits, both variants, under the oracle choice tree (complete in thorough, D<=1 in quick) and CaDiCaL; statuses judged as disjunctions over the reference extensions.",
    note="same trusted base as C01", ref="4 C07"),
  "C08": dict(engine="E2+E1", technique="bounded exhaustive exploration of update/query histories (stateless DFS) x oracle choice tree",
-   text="Every history of valid updates and supported queries up to depth 7 over 2 labels / depth 6 over 3 labels (thorough: 8 / 7), for the 15 solver configurations (3 buffered solvers, 2 attack-assumption solvers x 5 reservation factors, 2 recompute wrappers), plus all continuations from every <=3-argument framework built with compact and with sparse ids, query sequences from every isomorphism class of U(4) and of the sparse 5-argument digraphs, and seven scripted long histories (60-150 updates over 4-5 labels, every query after every update); each step compared with the reference semantics of the framework at that moment; the shared SAT solver is CaDiCaL and the controlled oracle (D<=2).",
+   text="Every history of valid updates and supported queries up to depth 7 over 2 labels / depth 6 over 3 labels (thorough: 8 / 7), for the 15 solver configurations (3 buffered solvers, 2 attack-assumption solvers x 5 reservation factors, 2 recompute wrappers), plus all continuations from every <=3-argument framework built with compact and with sparse ids, query sequences from every isomorphism class of U(4), of the sparse 5-argument digraphs and (preferred solver: up to 8 attacks) of the sparse 6-argument digraphs, and seven scripted long histories (60-150 updates over 4-5 labels, every query after every update); each step compared with the reference semantics of the framework at that moment; the shared SAT solver is CaDiCaL and the controlled oracle (D<=2).",
    note="trusted: reference store (bit sets) and reference semantics; certificate ids checked against an insertion-rank ledger; histories longer than the bound, >3 labels, other factors not covered", ref="4 C08, 2.2"),
  "C09": dict(engine="E2+E1", technique="bounded exhaustive exploration of histories with up to 2 redundant/invalid updates at every position",
    text="The C08 alphabet extended with redundant and invalid updates (one never-declared label) at every position, up to 2 per history, depth <=5/6 (thorough 6/8), all 15 solver configurations, from the empty solver and from every <=2-argument framework, plus 4 updates (exactly one bad) then one query from every <=2-argument start state (thorough also 3 labels); redundant must be a no-op, invalid must return Err from the update call itself, later steps must be those of the history without the bad operation. A history is cut at its first deviation; 20 call-site classes of one recorded defect (F7) are listed in known_findings.txt.",
